@@ -430,6 +430,11 @@ class Model:
                 for a in list(e.args[1:]) + [k.value for k in e.keywords if k.arg == "flags"]:
                     flags |= self._fold_flags(a)
                 return ("regex", self.fold(mod, e.args[0]), flags)
+            if isinstance(e.func, ast.Attribute) and e.func.attr == "join" and len(e.args) == 1 and not e.keywords:
+                sep = self.fold(mod, e.func.value)
+                parts = self.fold(mod, e.args[0])
+                if isinstance(sep, str) and isinstance(parts, (list, tuple)) and all(isinstance(x, str) for x in parts):
+                    return sep.join(parts)
             if fn in ("frozenset", "set", "tuple", "list") and len(e.args) == 1 and not e.keywords:
                 v = self.fold(mod, e.args[0])
                 if isinstance(v, (str, list, tuple, set, frozenset)):
